@@ -25,6 +25,27 @@ func (p *packFormatReader) nextOption() byte {
 	return opt
 }
 
+// alignableOption returns true if opt is an option that 'X' can borrow an
+// alignment from (all options with a size, that is not c, z, X, spaces or the
+// options that control endianness and maximum alignment).
+func alignableOption(opt byte) bool {
+	switch opt {
+	case 'b', 'B', 'h', 'H', 'l', 'L', 'j', 'J', 'T', 'i', 'I', 'f', 'd', 'n', 's', 'x':
+		return true
+	}
+	return false
+}
+
+// nextOptionAfterX returns the next option, setting p.err if the previous
+// option was 'X' and this one cannot be used for alignment.
+func (p *packFormatReader) nextOptionAfterX() byte {
+	opt := p.nextOption()
+	if p.alignOnly && !alignableOption(opt) {
+		p.err = errExpectedOption
+	}
+	return opt
+}
+
 func (p *packFormatReader) smallOptSize(defaultSize uint) (ok bool) {
 	if p.getOptSize() {
 		if ok = p.optSize >= 1 && p.optSize <= 16; !ok {
